@@ -20,7 +20,7 @@ PROP = "C07"
 LEVEL = "model_checking"
 RULE = ("E1: every sequence up to length L over items (delta-V in {-2^23-1,-2^23,-2^23+1,-2,-1,0,1,2,2^23-1,2^23,2^23+1} mod "
         "2^24, delta-t in {0,127.9,128,128.1} s, CON/NON), from first Observe values {5, 2^24-2}, for both request paths; plus "
-        "terminators (2.05 without Observe, 4.04, ICMP error, first response without Observe) at every position with later "
+        "same-message-ID copies after a pause, terminators (2.05 without Observe, 4.04, ICMP error, first response without Observe) at every position with later "
         "arrivals; distinct = distinct (path, sequence); states = distinct (model state, delivered stream) pairs")
 ASSUMPTIONS = [
     "the model reads arrival times from the same clock seam the library reads (no float drift between the two)",
